@@ -12,6 +12,14 @@ From QV Require Import Lib.Tac Lib.Corr gen.Constants
   Proofs.FrameLegalityProofs.
 Open Scope Z_scope.
 
+(** * 0. The bounds the theorems are instantiated with, pinned to the values the property names:
+    a changed constant in the code is a conscious decision that has to be repeated here. *)
+Example C03_constants_pinned :
+  CID_QUEUE_LEN = 5 /\ MAX_PATH_RESPONSES = 16 /\ MAX_ACK_BLOCKS = 64 /\
+  PathResponses.PINNED_MAX_PATH_RESPONSES = MAX_PATH_RESPONSES /\
+  PendingAcks.PINNED_MAX_ACK_BLOCKS = MAX_ACK_BLOCKS.
+Proof. vm_compute. repeat split; reflexivity. Qed.
+
 (** * 1. CidQueue: remote connection IDs driven by NEW_CONNECTION_ID frames.
     For every initial CID, every handshake-time sequence of [update_initial_cid] followed by every
     sequence of [insert(sequence, retire_prior_to <= sequence)] / [next]: no [expect]/[unwrap]/
